@@ -329,6 +329,35 @@ func enumC13(tier string, e *engine.Emitter) {
 			}
 		}
 	}
+	// four and five operations over {add, remove, test} x {/0, /1, /-} x value 1 (the reader groups tests, removes and
+	// adds on one path, so its cursor logic needs runs longer than three)
+	var tiny []string
+	for _, o := range []string{"add", "remove", "test"} {
+		for _, p := range []string{"/0", "/1", "/-"} {
+			tiny = append(tiny, `{"op":"`+o+`","path":"`+p+`","value":1}`)
+		}
+	}
+	maxOps := 4
+	if thorough {
+		maxOps = 5
+	}
+	var recOps func(prefix string, n int)
+	recOps = func(prefix string, n int) {
+		if n >= 4 {
+			e.Emit(engine.Case{Kind: "c13p", Leg: fmt.Sprintf("json-patch/%d-ops", n), A: "[" + prefix + "]"})
+		}
+		if n == maxOps {
+			return
+		}
+		for _, o := range tiny {
+			if prefix == "" {
+				recOps(o, n+1)
+			} else {
+				recOps(prefix+","+o, n+1)
+			}
+		}
+	}
+	recOps("", 0)
 	// (ii) line sequences with pruning
 	maxLines := 6
 	if thorough {
